@@ -5,7 +5,7 @@
 (* with it (L2; differences are "drift"), and every property predicate of Props.tla *)
 (* is evaluated on the event (L3; failures are findings).  Nothing stops at the     *)
 (* first problem; the result is printed when the whole trace has been consumed.     *)
-EXTENDS PropsCase, Registry
+EXTENDS PropsCase, Registry, Score
 
 VARIABLES l,        \* next trace line
           st,       \* sid -> [lang, s, dead]: the specification's state of every live store
@@ -93,6 +93,39 @@ TvMarkers ==
   /\ LET s2 == S_SetMarkers(st[E.sid].s, E.l, E.r) IN Step(NoRes, WithS(E.sid, s2), ProjDrift(s2, l))
   /\ UNCHANGED <<mem, cs, reg>>
 
+\* ---- L2 for the whole pipeline: the recorded per-record matcher output, scores, filter verdict and the
+\* recorded hit list against WordMatch / TextMatch / Score / Highlight / LimitSort (sampled: events with `stage`)
+SameMatch(lm, sm) ==      \* logged match, specification's match
+  /\ lm.offset = sm.offset /\ lm.s = sm.s /\ lm.e = sm.e /\ lm.sub = <<0, sm.sub>>
+  /\ lm.t10 = sm.t10 /\ lm.ct = sm.ct /\ lm.func = sm.func /\ lm.fin = sm.fin
+SameMatches(ls, ss) == Len(ls) = Len(ss) /\ \A i \in DOMAIN ls : SameMatch(ls[i], ss[i])
+
+StageDrift(S) ==
+  IF ~(Has(E, "stage") /\ Has(E, "qtok") /\ Has(E, "hits")) THEN <<>>
+  ELSE
+  LET s == S.s
+      ev(i) == EvalRecord(s.records[i].tok, s.records[i].rating, E.qtok, s.dividers.l, s.dividers.r)
+      evs == [i \in DOMAIN s.records |-> ev(i)]
+      okLen == Len(E.stage) = Len(s.records)
+  IN Check(okLen, l, "L2", "stage output does not cover the records")
+  \o (IF okLen THEN
+        Flatten([i \in DOMAIN E.stage |->
+            Check(SameMatches(E.stage[i].rm, evs[i].tm.rm) /\ SameMatches(E.stage[i].qm, evs[i].tm.qm), l, "L2", "text match differs from TextMatch.tla")
+         \o Check(E.stage[i].scores.big \/ E.stage[i].scores.v = evs[i].scores, l, "L2", "scores differ from Score.tla")
+         \o Check(E.stage[i].pass = evs[i].pass, l, "L2", "filter verdict differs from Score.tla")
+         \o Check(evs[i].safe, l, "L2", "an unsigned subtraction of the matcher would underflow (ArithSafe)")])
+        \o (IF Len(s.records) <= CapFactor * s.limit /\ UniqueIds(s)
+             THEN LET passing == SelectSeq([i \in DOMAIN s.records |-> [key |-> evs[i].key, id |-> s.records[i].id, title |-> evs[i].title, pass |-> evs[i].pass]],
+                                           LAMBDA x : x.pass)
+                      byId(id) == CHOOSE x \in SeqRange(passing) : x.id = id
+                      known == \A k \in DOMAIN E.hits : \E x \in SeqRange(passing) : x.id = E.hits[k].id
+                  IN Check(known /\ IsTopK([k \in DOMAIN E.hits |-> byId(E.hits[k].id)], passing, s.limit), l, "L2",
+                           "hit list is not a top-`limit` selection of the passing records under Score.tla's order")
+                  \o (IF known THEN Check(\A k \in DOMAIN E.hits : E.hits[k].title = byId(E.hits[k].id).title, l, "L2",
+                                            "highlighted title differs from Highlight.tla") ELSE <<>>)
+             ELSE <<>>)
+      ELSE <<>>)
+
 \* the cache after a search, as the specification sees it: an empty query (re)fills it with the list
 \* the code reports, provided that list is one the specification allows (otherwise drift)
 CacheAfter(s, P) ==
@@ -137,7 +170,7 @@ TvSearch ==
      ELSE LET s2 == [S.s EXCEPT !.topIxs = CacheAfter(S.s, E)] IN
           Step(SearchProps(S), WithS(E.sid, s2),
                Check(CacheAllowed(S.s), l, "L2", "cached top-rated list is not a top-`limit` list of the records")
-               \o ProjDrift(s2, l))
+               \o ProjDrift(s2, l) \o StageDrift(S))
   /\ mem' = IF Has(E, "tag") /\ Has(E, "hits") THEN [x \in DOMAIN mem \cup {E.tag} |-> IF x = E.tag THEN [hits |-> E.hits, q |-> E.q, sid |-> E.sid] ELSE mem[x]] ELSE mem
   /\ UNCHANGED <<cs, reg>>
 
